@@ -390,9 +390,13 @@ func genDialogOp(g *gen, c *Cfg, n int, typ string) Op {
 		// the subscriber's user agent is known to the proxy through this listener only
 		ua = fmt.Sprintf("10.1.%d.%d:%d", 50+li, 1+g.intn(200), g.pick2(5060, 5062, 5064))
 	}
+	fromTag, toTag := g.tagValue(), g.tagValue()
+	if len(g.tagPool) > 0 && g.chance(70) {
+		fromTag, toTag = g.tagPool[g.intn(len(g.tagPool))], g.tagPool[g.intn(len(g.tagPool))]
+	}
 	op := Op{Kind: "dialog", ID: id, Listen: li, DelayUs: int64(g.intn(20000)),
 		S: map[string]string{"type": typ, "callID": "call-" + id + "@" + g.alnum(3, 6), "fromURI": fromURI, "toURI": toURI,
-			"fromTag": g.tagValue(), "toTag": g.tagValue(), "ruri": svcRURI(g, c), "ua": ua, "ua2": ua2},
+			"fromTag": fromTag, "toTag": toTag, "ruri": svcRURI(g, c), "ua": ua, "ua2": ua2},
 		I: map[string]int{"prov": g.intn(3), "style": g.intn(1000), "early": g.intn(4)}}
 	nreq := g.rng(1, 5)
 	meths := []string{"INFO", "UPDATE", "INVITE", "MESSAGE", "REFER", "NOTIFY", "OPTIONS", "PRACK", "PUBLISH"}
@@ -454,6 +458,9 @@ func genStickyPlan(seed uint64, tier string) *Plan {
 		p.Variant = "kf:KF-C04-1"
 	} else if !openFinding("KF-C04-1") {
 		g.kfCross = true // nothing to avoid
+	}
+	if g.chance(25) {
+		g.tagPool = []string{g.tagValue(), g.tagValue()}
 	}
 	n := 0
 	for i := 0; i < nd; i++ {
